@@ -743,6 +743,8 @@ func checkC04(c *Ctx) Meta {
 		})
 	}
 	c04Enc(c, t, fns)
+	c.Rule("C04-PRIVNEPUB", "a keystore is never protected by the public passphrase: the private passphrase an imported keystore ends up under is compared with kmc.pubPassphrase after its last assignment (the defaulting of an empty new passphrase to the file's), and it is that very variable that is stored under", 1)
+	checkPrivNotPub(c, "C04-PRIVNEPUB")
 	c.Rule("C04-REKEY", "after a private passphrase change nothing stays sealed under the revoked passphrase: the change re-encrypts the private crypto key of every keystore (not only the first) inside its transaction", 1)
 	checkRekeyAllKeystores(c, "C04-REKEY")
 	c.Rule("C04-RAND", "key material is complete: every read of randomness into a key or salt in the snacl/keystore packages is a complete read (io.ReadFull / crypto/rand.Read), never a bare Reader.Read whose short count would leave the tail of the key zero", 3)
@@ -1004,5 +1006,91 @@ func c04Rand(c *Ctx) {
 	}
 	if n < 3 {
 		c.Bad(rule, "anchor:random-reads", "", fmt.Sprintf("reason=anchor-missing: only %d reads of randomness found", n))
+	}
+}
+
+// checkPrivNotPub: the private passphrase a keystore ends up under is never the wallet's public
+// passphrase (which a locked wallet keeps in memory and every reader of the configuration knows): in
+// ImportKeystore the value compared with kmc.pubPassphrase is the very variable whose value is handed
+// to the storing function as the new private passphrase, compared *after* its last assignment (the
+// defaulting of an empty new passphrase to the file's passphrase) — a comparison made before the
+// defaulting checks the empty slice and lets a file protected by the public passphrase in.
+func checkPrivNotPub(c *Ctx, rule string) {
+	f := c.MustFn(rule, "poc/wallet/keystore", "(*KeystoreManagerForPoC).ImportKeystore")
+	if f == nil {
+		return
+	}
+	key := "ImportKeystore:final-private-passphrase-differs-from-public"
+	var cmp *ssa.Call
+	var pwArg ssa.Value
+	allInstrs(f, func(in ssa.Instruction) {
+		cl, ok := in.(*ssa.Call)
+		if !ok || !(isCall(cl, "bytes.Compare") || isCall(cl, "bytes.Equal")) || len(cl.Call.Args) != 2 {
+			return
+		}
+		for i := 0; i < 2; i++ {
+			if backSlice(cl.Call.Args[i]).hasField(tKMC, "pubPassphrase") && !backSlice(cl.Call.Args[1-i]).hasField(tKMC, "pubPassphrase") {
+				cmp, pwArg = cl, cl.Call.Args[1-i]
+			}
+		}
+	})
+	if cmp == nil {
+		c.Bad(rule, key, c.Pos(f.Pos()), "the new private passphrase of an imported keystore is no longer compared with the public passphrase")
+		return
+	}
+	cellOfLoad := func(v ssa.Value) ssa.Value {
+		if u, ok := v.(*ssa.UnOp); ok && u.Op == token.MUL {
+			return rootCell(u.X)
+		}
+		return nil
+	}
+	var under []ssa.Value
+	for _, g := range withClosures(f) {
+		for _, cl := range callsIn(g, "(*"+tKMC+").allocAddrMgrNamespace") {
+			callee := cl.Call.StaticCallee()
+			for i, p := range callee.Params {
+				if p.Name() == "newPass" && i < len(cl.Call.Args) {
+					under = append(under, cl.Call.Args[i])
+				}
+			}
+		}
+	}
+	if len(under) == 0 {
+		c.Bad(rule, key, c.Pos(f.Pos()), "reason=anchor-missing: the call storing the imported keystore under its new private passphrase")
+		return
+	}
+	cc := cellOfLoad(pwArg)
+	ok := true
+	why := ""
+	for _, u := range under {
+		if u == pwArg {
+			continue
+		}
+		if uc := cellOfLoad(u); uc == nil || cc == nil || uc != cc {
+			ok = false
+			why = "the value compared with the public passphrase is not the variable handed on as the new private passphrase"
+		}
+	}
+	if ok && cc != nil {
+		after := reach(f, cmp, nil, nil)
+		for _, g := range withClosures(f) {
+			g := g
+			allInstrs(g, func(in ssa.Instruction) {
+				if st, isSt := in.(*ssa.Store); isSt && rootCell(st.Addr) == cc {
+					if _, isParam := st.Val.(*ssa.Parameter); isParam && g == f && !after(st) && st.Block() == f.Blocks[0] {
+						return // the spill of the parameter at entry
+					}
+					if g != f || after(st) {
+						ok = false
+						why = "the new private passphrase is assigned (at " + c.Pos(st.Pos()) + ") after it was compared with the public passphrase: the comparison saw the value before the defaulting to the file's passphrase"
+					}
+				}
+			})
+		}
+	}
+	if ok {
+		c.OK(rule, key, c.Pos(cmp.Pos()), "the variable compared with kmc.pubPassphrase is the one stored under, with no assignment after the comparison")
+	} else {
+		c.Bad(rule, key, c.Pos(cmp.Pos()), why)
 	}
 }
